@@ -89,7 +89,7 @@ func goEnv() []string {
 // prepareHarnessModule refreshes go.sum from /repo (the harness module
 // replaces go-ipfix by /repo's working tree).
 func prepareHarnessModule() error {
-	b, err := os.ReadFile("/repo/go.sum")
+	b, err := os.ReadFile(filepath.Join(repoDir, "go.sum"))
 	if err != nil {
 		return err
 	}
@@ -261,7 +261,7 @@ func cmdCheck(args []string) int {
 		fmt.Fprintln(os.Stderr, "INCONCLUSIVE:", err)
 		return 2
 	}
-	workDir := filepath.Join("/verif/.work", fmt.Sprintf("%s-%d", id, os.Getpid()))
+	workDir := filepath.Join(outDir, ".work", fmt.Sprintf("%s-%d", id, os.Getpid()))
 	os.MkdirAll(workDir, 0o755)
 	if !*keep {
 		defer os.RemoveAll(workDir)
@@ -328,9 +328,11 @@ func cmdCheck(args []string) int {
 		cfg := defaultConfig()
 		cfg.Workers = *workers
 		cfg.Seed = seed
+		cfg.MaxWall = 10 * time.Minute // per harness function; a run that hits it is INCONCLUSIVE, never a pass
 		if thorough {
 			cfg.Tier = 1
 			cfg.SecondSolver = "cvc5"
+			cfg.MaxWall = 40 * time.Minute
 		}
 		if h.Tune != nil {
 			h.Tune(&cfg, thorough)
@@ -447,9 +449,9 @@ func cmdCheck(args []string) int {
 					fmt.Printf("INCONCLUSIVE: translator validation mismatch on %s vector %d: interpreter outcome=%s obs=%q, native outcome=%s obs=%q\n",
 						cr.h.Func, i, tr.Outcome, tr.Observes, r.Outcome, r.Obs)
 					problems++
-					os.MkdirAll(filepath.Join("/verif/replays", id), 0o755)
+					os.MkdirAll(filepath.Join(outDir, "replays", id), 0o755)
 					b, _ := os.ReadFile(files[i])
-					os.WriteFile(filepath.Join("/verif/replays", id, fmt.Sprintf("mismatch-%s-%d.json", cr.h.Func, i)), b, 0o644)
+					os.WriteFile(filepath.Join(outDir, "replays", id, fmt.Sprintf("mismatch-%s-%d.json", cr.h.Func, i)), b, 0o644)
 				} else {
 					ev.TracesValidated++
 				}
@@ -461,14 +463,14 @@ func cmdCheck(args []string) int {
 	violations := 0
 	knownHits := 0
 	if len(pendingViol) > 0 && br.err == nil {
-		os.MkdirAll(filepath.Join("/verif/replays", id), 0o755)
+		os.MkdirAll(filepath.Join(outDir, "replays", id), 0o755)
 		for i, v := range pendingViol {
 			if i >= 12 {
 				fmt.Printf("NOTE: %d further counterexamples not replayed\n", len(pendingViol)-i)
 				break
 			}
 			hfn := v.Harness[strings.IndexByte(v.Harness, '.')+1:]
-			path := filepath.Join("/verif/replays", id, fmt.Sprintf("cex-%s-%d.json", hfn, i))
+			path := filepath.Join(outDir, "replays", id, fmt.Sprintf("cex-%s-%d.json", hfn, i))
 			rf := replayFile{Property: id, Harness: hfn, Tier: tierNum, Params: map[string]int64{}, Draws: replayDraws(v.Draws), Expect: violationExpect(v),
 				Kind: v.Kind, Label: v.Label, Site: v.Site, Msg: v.Msg, Decis: fmt.Sprint(v.Decisions), Solver: v.Solver}
 			b, _ := json.MarshalIndent(rf, "", " ")
@@ -549,7 +551,7 @@ func cmdCheck(args []string) int {
 		ev.Monitor = monLog.Summary()
 		cands := monLog.RaceCandidates()
 		ev.RaceCandidates = len(cands)
-		os.MkdirAll(filepath.Join("/verif/replays", id), 0o755)
+		os.MkdirAll(filepath.Join(outDir, "replays", id), 0o755)
 		for i, c := range cands {
 			desc := fmt.Sprintf("unsynchronised conflicting accesses to shared location %s: role %s at %s (write=%v atomic=%v locks=%q) and role %s at %s (write=%v atomic=%v locks=%q)",
 				c.Loc, c.RoleA, c.A.Site, c.A.Write, c.A.Atomic, c.A.Locks, c.RoleB, c.B.Site, c.B.Write, c.B.Atomic, c.B.Locks)
@@ -566,7 +568,7 @@ func cmdCheck(args []string) int {
 			if isKnown {
 				continue
 			}
-			path := filepath.Join("/verif/replays", id, fmt.Sprintf("race-%d.json", i))
+			path := filepath.Join(outDir, "replays", id, fmt.Sprintf("race-%d.json", i))
 			rf := replayFile{Property: id, Harness: "lockset", Kind: "race", Label: label, Msg: desc, Expect: "race"}
 			if v := monLog.First[c.RoleA+"|"+c.Loc+"|"+c.A.Site]; v != nil {
 				rf.Draws = v.Draws
@@ -650,7 +652,7 @@ func cmdReplay(args []string) int {
 		fmt.Fprintln(os.Stderr, err)
 		return 2
 	}
-	workDir := filepath.Join("/verif/.work", fmt.Sprintf("replay-%d", os.Getpid()))
+	workDir := filepath.Join(outDir, ".work", fmt.Sprintf("replay-%d", os.Getpid()))
 	os.MkdirAll(workDir, 0o755)
 	defer os.RemoveAll(workDir)
 	overlayFile := ""
